@@ -64,6 +64,9 @@ class CSA:
                 for a in n['args']:
                     if path_of(a) and path_of(a)[-2:-1] == ['OpCode']:
                         self.tested_ops.add(path_of(a)[-1])
+            # the register may also be inspected directly (`match self.last_instruction { Some(OpCode::Pop) => ..`)
+            for n in find_all(m_['body'], lambda n: n.get('k') in ('p_path', 'p_tuple_struct') and len(n.get('path', [])) >= 2 and n['path'][-2] == 'OpCode'):
+                self.tested_ops.add(n['path'][-1])
 
     # ---- call graph among the methods -----------------------------------------------------
     def _calls_of(self, m):
@@ -109,7 +112,7 @@ class CSA:
             env = dict(env)
             env[pat['name']] = val
             return [('yes', st, env)]
-        if k == 'p_ref':
+        if k in ('p_ref', 'p_type', 'p_paren'):
             return self.match_pat(pat['pat'], val, st, env)
         if k == 'p_or':
             out = []
@@ -136,6 +139,39 @@ class CSA:
                 subs = [(str(i), p) for i, p in enumerate(pat['elems'])]
             elif k == 'p_struct':
                 subs = [(f['member'], f['pat']) for f in pat['fields']]
+            if val == ('selffield', 'last_instruction') or val[0] == 'lastreg':
+                self.m.finalize(st)
+                if name == 'None' and enum in (None, 'Option'):
+                    if st.last == '?':
+                        s2 = st.clone()
+                        s2.last = 'None'
+                        return [('maybe', s2, env)]
+                    return [('yes', st, env)] if st.last == 'None' else []
+                if name == 'Some' and enum in (None, 'Option'):
+                    sp = subs[0][1]
+                    while sp['k'] == 'p_ref':
+                        sp = sp['pat']
+                    if sp['k'] in ('p_path',) and len(sp['path']) >= 2 and sp['path'][-2] == 'OpCode':
+                        want = sp['path'][-1]
+                        if st.last == '?':
+                            s2 = st.clone()
+                            s2.last = want
+                            s2.last_emit = None
+                            return [('maybe', s2, env)]
+                        return [('yes', st, env)] if st.last == want else []
+                    if sp['k'] == 'p_or':
+                        out = []
+                        for c in sp['cases']:
+                            out += self.match_pat({'k': 'p_tuple_struct', 'path': path, 'elems': [c]}, val, st.clone(), env)
+                        return out
+                    if sp['k'] in ('p_wild', 'p_ident'):
+                        if st.last == 'None':
+                            return []
+                        e2 = dict(env)
+                        if sp['k'] == 'p_ident':
+                            e2[sp['name']] = ('opcode', st.last) if st.last not in ('?', 'other') else ('unk', 'opcode')
+                        return [('maybe' if st.last == '?' else 'yes', st.clone() if st.last == '?' else st, e2)]
+                raise Undecided('CSA: pattern %s against the peephole register' % render_pat(pat))
             # Option / Result
             if name in ('Some', 'None') and (enum in (None, 'Option')):
                 if val[0] == 'opt':
@@ -410,8 +446,36 @@ class CSA:
     def ev_index(self, e, st, env):
         return self.seq([e['base'], e['index']], st, env, lambda s, en, vals: [(s, en, 'v', ('unk', 'index'))])
 
+    def ev___value(self, e, st, env):
+        return [(st, env, 'v', e['value'])]
+
     def ev_closure(self, e, st, env):
-        return [(st, env, 'v', ('closure',))]
+        return [(st, env, 'v', ('closure', e, env))]
+
+    def apply_closure(self, clo, args, st, env):
+        """outcomes of calling a closure value: a `return`/`?` inside it ends the closure, not the method"""
+        if len(clo) < 3:
+            return [(st, env, 'v', ('unk', 'closure()'))]
+        e, cenv = clo[1], dict(clo[2])
+        params = e.get('inputs') or e.get('params') or []
+        states = [(st, cenv)]
+        for p, v in zip(params, args):
+            pat = p.get('pat', p) if isinstance(p, dict) else p
+            while pat.get('k') == 'p_type':
+                pat = pat['pat']
+            nxt = []
+            for s1, e1 in states:
+                for _, s2, e2 in self.match_pat(pat, v, s1, e1):
+                    nxt.append((s2, e2))
+            states = nxt
+        out = []
+        for s1, e1 in states:
+            for s2, e2, kind, v in self.ev(e['body'], s1, e1):
+                if kind in ('v', 'ret'):
+                    out.append((s2, env, 'v', v))
+                else:
+                    raise Undecided('CSA: break/continue leaves a closure')
+        return out
 
     def ev_try(self, e, st, env):
         out = []
@@ -470,7 +534,23 @@ class CSA:
             out = []
             if s['k'] == 's_let':
                 if s.get('else') is not None:
-                    raise Undecided('CSA: let-else')
+                    for s1, e1, kind, v in self.ev(s['init'], st, env):
+                        if kind != 'v':
+                            out.append((s1, e1, kind, v))
+                            continue
+                        ms = self.match_pat(s['pat'], v, s1.clone(), e1)
+                        definite = False
+                        for verdict, s2, e2 in ms:
+                            out += rec(i + 1, s2, e2)
+                            if verdict == 'yes':
+                                definite = True
+                        if not definite:
+                            s3 = s1.clone()
+                            s3.trace.append('not %s' % render_pat(s['pat']))
+                            for o in self.ev(s['else'], s3, e1):
+                                if o[2] != 'v':        # the else block must diverge
+                                    out.append(o)
+                    return out
                 if s.get('init') is None:
                     e2 = dict(env)
                     return rec(i + 1, st, e2)
@@ -836,6 +916,52 @@ class CSA:
                 s2.facts[('empty', r[1])] = False
                 return [(s1, en, 'v', ('bool', True)), (s2, en, 'v', ('bool', False))]
             return V(('unkbool',))
+        if meth in ('then', 'then_some') and r[0] in ('bool', 'unkbool', 'unk'):
+            outs = []
+            for tv, s2 in self.truth(r if r[0] == 'bool' else ('unkbool',), s):
+                if not tv:
+                    outs.append((s2, en, 'v', ('opt', 'none')))
+                elif meth == 'then_some':
+                    outs.append((s2, en, 'v', ('opt', 'some', a[0])))
+                else:
+                    for s3, e3, k3, v3 in self.apply_closure(a[0], [], s2, en):
+                        outs.append((s3, en, 'v', ('opt', 'some', v3)))
+            return outs
+        if meth in ('map', 'and_then') and r[0] in ('opt', 'res') and a and a[0][0] == 'closure':
+            if r[1] in ('none', 'err'):
+                return V(r)
+            outs = []
+            for s3, e3, k3, v3 in self.apply_closure(a[0], [r[2]], s, en):
+                outs.append((s3, en, 'v', v3 if meth == 'and_then' else (r[0], r[1], v3)))
+            return outs
+        if meth in ('unwrap_or', 'unwrap_or_else', 'unwrap_or_default') and r[0] in ('opt', 'res'):
+            if r[1] in ('some', 'ok'):
+                return V(r[2])
+            if meth == 'unwrap_or':
+                return V(a[0])
+            if meth == 'unwrap_or_else':
+                return self.apply_closure(a[0], [] if r[0] == 'opt' else [r[2]], s, en)
+            return V(('unk', 'default'))
+        if meth in ('try_for_each', 'for_each') and a and a[0][0] == 'closure' and len(a[0]) == 3 and r[0] in ('ast', 'selffield'):
+            clo = a[0][1]
+            params = clo.get('inputs') or clo.get('params') or []
+            pat = params[0].get('pat', params[0]) if params else {'k': 'p_wild'}
+            while pat.get('k') == 'p_type':
+                pat = pat['pat']
+            body = clo['body']
+            if meth == 'try_for_each':
+                body = {'k': 'try', 'expr': body, 'line': e.get('line')}
+            loop = {'k': 'for', 'pat': pat, 'iter': {'k': '__value', 'value': r}, 'line': e.get('line'),
+                    'body': {'stmts': [{'k': 's_expr', 'expr': body, 'semi': True}]}}
+            outs = []
+            for s3, e3, k3, v3 in self.eval_for(loop, s, dict(a[0][2])):
+                if k3 == 'v':
+                    outs.append((s3, en, 'v', ('res', 'ok', ('unit',)) if meth == 'try_for_each' else ('unit',)))
+                elif k3 == 'ret':
+                    outs.append((s3, en, 'v', v3))
+                else:
+                    raise Undecided('CSA: break/continue leaves a closure')
+            return outs
         if meth in ('map_err', 'ok_or', 'ok_or_else'):
             if r[0] == 'res':
                 return V(r)
